@@ -13,6 +13,7 @@ import (
 
 // Clause is one labelled contract expression.
 type Clause struct {
+	ObjInv bool // from a `maintains` clause: an object invariant over unexported state
 	Label string
 	Src   string
 	Expr  ast.Expr
@@ -389,6 +390,24 @@ func (cs *Contracts) LoadContractText(text, path, pkgPath string) error {
 				cl.Label = "g" + strconv.Itoa(len(cur.Grants)+1)
 			}
 			cur.Grants = append(cur.Grants, cl)
+		case "maintains":
+			// maintains l: e  ==  requires l: e + ensures l: e, where the requires half is an OBJECT INVARIANT: it is
+			// proved at call sites inside the declaring package and assumed at call sites in other packages (which
+			// cannot touch the unexported state it talks about).
+			if cur == nil {
+				return fmt.Errorf("%s:%d: maintains outside func", base, it.n)
+			}
+			c1, err := parseClause(rest, base, it.n, true)
+			if err != nil {
+				return err
+			}
+			if c1.Label == "" {
+				c1.Label = "m" + strconv.Itoa(len(cur.Requires)+1)
+			}
+			c1.ObjInv = true
+			c2 := *c1
+			cur.Requires = append(cur.Requires, c1)
+			cur.Ensures = append(cur.Ensures, &c2)
 		case "requires", "ensures":
 			c, err := parseClause(rest, base, it.n, true)
 			if err != nil {
